@@ -1,6 +1,6 @@
 #!/bin/bash
 # Runs one monitor against a MUTATED copy of the repository without touching /repo or /verif/target.
-#   tools/with_mutant.sh <slot> <patch.diff | -> <Cnn> [quick|thorough] [extra args...]
+#   tools/with_mutant.sh <slot> <patch.diff | - | => <Cnn> [quick|thorough] [extra args...]
 # <slot> is any name; its scratch tree /tmp/mutslot/<slot> (worktree of /repo HEAD + copy of the harness with
 # all /repo/ paths redirected + its own target dir) is reused between calls with the same slot to keep builds incremental.
 # Remove it when done:  tools/with_mutant.sh <slot> --clean
@@ -11,12 +11,14 @@ if [ "$patch" = "--clean" ]; then git -C /repo worktree remove --force "$base/re
 prop=$3; tier=${4:-quick}; shift; shift; shift; shift 2>/dev/null || true
 pkg=$(echo "$prop" | tr 'C' 'c')
 mkdir -p "$base/out"
+if [ "$patch" != "=" ]; then   # "=" : keep the slot's tree and harness copy exactly as the previous call left them (several monitors against one patch)
 git -C /repo worktree remove --force "$base/repo" 2>/dev/null; rm -rf "$base/repo"; git -C /repo worktree prune
 git -C /repo worktree add --detach -f "$base/repo" HEAD >/dev/null 2>&1 || { echo "HARNESS-ERROR cannot create worktree"; exit 3; }
 if [ "$patch" != "-" ]; then git -C "$base/repo" apply "$(readlink -f "$patch")" || { echo "HARNESS-ERROR patch does not apply"; exit 3; }; fi
 rsync -a --delete --exclude target /verif/harness/ "$base/harness/"
 grep -rlE '"/repo/|/repo/' "$base/harness" --include=*.toml --include=*.rs | xargs -r sed -i "s#/repo/#$base/repo/#g"
 sed -i "s#^target-dir = .*#target-dir = \"$base/target\"#" "$base/harness/.cargo/config.toml"
+fi
 cp /verif/known_findings.json "$base/out/known_findings.json"
 rm -rf "$base/out/evidence" "$base/out/replays"
 log=$(mktemp)
